@@ -811,15 +811,8 @@ func (f *FuncCFG) resolve(e ast.Expr, pt Point, intoHelpers bool) (ast.Expr, Poi
 				if _, baseIsIdent := ast.Unparen(se.X).(*ast.Ident); baseIsIdent {
 					be, bpt := f.resolve(se.X, pt, intoHelpers)
 					if be != se.X {
-						var lit *ast.CompositeLit
-						switch y := ast.Unparen(be).(type) {
-						case *ast.CompositeLit:
-							lit = y
-						case *ast.UnaryExpr:
-							if y.Op == token.AND {
-								lit, _ = ast.Unparen(y.X).(*ast.CompositeLit)
-							}
-						}
+						// only a struct VALUE (a result record); an object behind a pointer has mutable fields
+						lit, _ := ast.Unparen(be).(*ast.CompositeLit)
 						if lit != nil {
 							found := false
 							for _, el := range lit.Elts {
